@@ -95,7 +95,13 @@ def main():
     except Exception:
         print(f"ERROR: check module for {pid} crashed")
         traceback.print_exc()
-        return 2
+        if not ctx.violations:
+            return 2
+        # violations recorded before the crash are still reported (a changed implementation may drive the harness into
+        # a state it cannot handle; what it had already found is the more useful answer than "crashed")
+        crashed = True
+
+    crashed = locals().get('crashed', False)
 
     # ---- 3. outcome
     known = [k for k in core.load_findings() if k["property"] == pid]
@@ -133,7 +139,7 @@ def main():
             exit_code = 1
 
     wall = time.time() - ctx.t0
-    if not a.replay and not a.skip_proofs:
+    if not a.replay and not a.skip_proofs and not crashed:
         ev = dict(
             property_id=pid,
             tier=a.tier,
